@@ -51,6 +51,22 @@ REF_FCN static REF_STATUS ref_part_meshb_long(FILE *file, REF_INT version,
   return REF_SUCCESS;
 }
 
+/* a declared record count must be non-negative, fit REF_INT (the chunk
+ * arithmetic below is REF_INT) and need no more bytes than the file has left:
+ * every record of a cell or geometry section is at least 4 bytes */
+REF_FCN static REF_STATUS ref_part_meshb_count_fits(FILE *file,
+                                                    REF_LONG count) {
+  REF_FILEPOS here, end;
+  here = ftello(file);
+  REIS(0, fseeko(file, 0, SEEK_END), "seek end");
+  end = ftello(file);
+  REIS(0, fseeko(file, here, SEEK_SET), "seek back");
+  RAS(0 <= count && count <= (REF_LONG)REF_INT_MAX &&
+          count <= (REF_LONG)((end - here) / 4),
+      "meshb record count exceeds file");
+  return REF_SUCCESS;
+}
+
 REF_FCN static REF_STATUS ref_part_meshb_size(FILE *file, REF_INT version,
                                               REF_SIZE *value) {
   unsigned int int_value;
@@ -769,6 +785,7 @@ REF_FCN static REF_STATUS ref_part_meshb(REF_GRID *ref_grid_ptr,
           "jump");
       if (available) {
         RSS(ref_part_meshb_long(file, version, &ncell), "ncell");
+        RSS(ref_part_meshb_count_fits(file, ncell), "ncell fits");
         if (verbose) printf("group %d ncell %ld\n", group, ncell);
       }
     }
@@ -791,6 +808,7 @@ REF_FCN static REF_STATUS ref_part_meshb(REF_GRID *ref_grid_ptr,
           "jump");
       if (available) {
         RSS(ref_part_meshb_long(file, version, &ngeom), "ngeom");
+        RSS(ref_part_meshb_count_fits(file, ngeom), "ngeom fits");
         if (verbose) printf("type %d ngeom %ld\n", type, ngeom);
       }
     }
@@ -987,6 +1005,7 @@ REF_FCN REF_STATUS ref_part_cad_association(REF_GRID ref_grid,
           "jump");
       if (available) {
         RSS(ref_part_meshb_long(file, version, &ngeom), "ngeom");
+        RSS(ref_part_meshb_count_fits(file, ngeom), "ngeom fits");
         if (verbose) printf("type %d ngeom %ld\n", type, ngeom);
       }
     }
@@ -1052,6 +1071,7 @@ REF_FCN REF_STATUS ref_part_cad_discrete_edge(REF_GRID ref_grid,
         "jump");
     if (available) {
       RSS(ref_part_meshb_long(file, version, &ncell), "ncell");
+      RSS(ref_part_meshb_count_fits(file, ncell), "ncell fits");
       if (verbose) printf("nedge %ld\n", ncell);
     }
   }
